@@ -38,6 +38,9 @@ type c01Route struct {
 	cluster             []netip.Addr
 	comms               []uint32
 	segs                [][]uint32 // each: typ followed by members
+	// nh: NEXT_HOP when it is not the announcing peer's own address — a "twin" of another
+	// internal peer's route carries that route's attributes octet for octet (same marker too)
+	nh netip.Addr
 }
 
 func c01U32(a netip.Addr) uint32 { b := a.As4(); return binary.BigEndian.Uint32(b[:]) }
@@ -76,6 +79,10 @@ func (r *c01Route) line() string {
 			fmt.Fprintf(&sb, " %d", a)
 		}
 	}
+	if r.nh.IsValid() {
+		// ignored by the model (its routes have no next hop); needed to replay the history
+		fmt.Fprintf(&sb, " nh %d", c01U32(r.nh))
+	}
 	return sb.String()
 }
 
@@ -93,7 +100,11 @@ func (r *c01Route) msg(from *vwPeer) *bgp.BGPMessage {
 		params = append(params, bgp.NewAs4PathParam(uint8(s[0]), append([]uint32{}, s[1:]...)))
 	}
 	attrs = append(attrs, bgp.NewPathAttributeAsPath(params))
-	nh, _ := bgp.NewPathAttributeNextHop(from.spec.addr)
+	nha := from.spec.addr
+	if r.nh.IsValid() {
+		nha = r.nh
+	}
+	nh, _ := bgp.NewPathAttributeNextHop(nha)
 	attrs = append(attrs, nh)
 	if r.med != nil {
 		attrs = append(attrs, bgp.NewPathAttributeMultiExitDisc(*r.med))
@@ -314,6 +325,36 @@ func c01GenRoute(r *vRand, sc *c01Scenario, from *vwPeer) *c01Route {
 	return rt
 }
 
+// c01Twin: a copy of a route another INTERNAL peer currently announces, to be announced by
+// internal peer i with the same attributes octet for octet (same next hop, same marker): two
+// route reflectors / iBGP peers relaying one external route. Only the source tells the two apart.
+func c01Twin(r *vRand, sc *c01Scenario, i int) *c01Route {
+	w := sc.w
+	vp := w.peers[i]
+	if vp.spec.kind == "ebgp" {
+		return nil
+	}
+	for k, q := range w.peers {
+		if k == i || q.deleted || !q.up || q.spec.kind == "ebgp" || len(sc.latest[k]) == 0 {
+			continue
+		}
+		keys := make([]string, 0, len(sc.latest[k]))
+		for key := range sc.latest[k] {
+			keys = append(keys, key)
+		}
+		sort.Strings(keys)
+		cp := *sc.latest[k][keys[r.intn(len(keys))]]
+		if !cp.nh.IsValid() {
+			cp.nh = q.spec.addr
+		}
+		if !vp.spec.addPathRx {
+			cp.pathID = 0
+		}
+		return &cp
+	}
+	return nil
+}
+
 func c01SrcKind(w *vWorld, p *table.Path) string {
 	if p == nil {
 		return "none"
@@ -380,16 +421,20 @@ func (sc *c01Scenario) oracleC01(history []string) {
 func (sc *c01Scenario) oracleAddPath(vp *vwPeer, history []string) {
 	w := sc.w
 	for i := range c01Prefixes {
-		eligible := map[uint32]uint32{} // marker -> local id
+		// (marker, local id) pairs: twins of one route announced by two internal peers share a marker
+		eligible := map[[2]uint32]bool{}
+		eligibleMarker := map[uint32]bool{}
 		for _, p := range w.s.globalRib.GetPathList(table.GLOBAL_RIB_NAME, 0, []bgp.Family{bgp.RF_IPv4_UC}) {
 			if p.GetNlri().String() != c01Prefixes[i] {
 				continue
 			}
 			if e := w.s.filterpath(vp.p, p, nil); e != nil && !e.IsWithdraw {
-				eligible[vwMarker(p.GetPathAttrs())] = p.LocalID()
+				m := vwMarker(p.GetPathAttrs())
+				eligible[[2]uint32{m, p.LocalID()}] = true
+				eligibleMarker[m] = true
 			}
 		}
-		held := map[uint32]uint32{} // marker -> advertised id
+		var held [][2]uint32 // (marker, advertised id)
 		ids := map[uint32]bool{}
 		for k, h := range vp.view {
 			parts := strings.Split(k, "#")
@@ -398,15 +443,15 @@ func (sc *c01Scenario) oracleAddPath(vp *vwPeer, history []string) {
 			}
 			id := uint32(0)
 			fmt.Sscan(parts[1], &id)
-			held[h.marker] = id
+			held = append(held, [2]uint32{h.marker, id})
 			ids[id] = true
 		}
+		sort.Slice(held, func(a, b int) bool { return held[a][0] < held[b][0] || held[a][0] == held[b][0] && held[a][1] < held[b][1] })
 		det := map[string]any{"peer": vp.spec.addr.String(), "send_max": vp.spec.sendMax, "prefix": c01Prefixes[i], "eligible": fmt.Sprint(eligible), "held": fmt.Sprint(held), "history": append([]string{}, history...)}
-		for m, id := range held {
-			lid, ok := eligible[m]
-			if !ok {
+		for _, h := range held {
+			if !eligibleMarker[h[0]] {
 				sc.o.fail("addpath:ineligible-or-gone-route-advertised", det)
-			} else if lid != id {
+			} else if !eligible[h] {
 				sc.o.fail("addpath:path-id-not-stable", det)
 			}
 		}
@@ -717,6 +762,9 @@ func c01Run(t *testing.T, o *vOut, r *vRand, nOps int, idx int, addPathMode bool
 				cp := *prev
 				rt = &cp
 				o.stat("op_reannounce_identical", 1)
+			} else if tw := c01Twin(r, sc, i); tw != nil && r.chance(10) {
+				rt, key = tw, fmt.Sprintf("%d#%d", tw.pfx, tw.pathID)
+				o.stat("op_ann_twin_of_other_peer", 1)
 			}
 			w.recv(vp, rt.msg(vp))
 			sc.latest[i][key] = rt
@@ -822,6 +870,9 @@ func c01ParseRoute(f []string) *c01Route {
 		}
 		rt.segs = append(rt.segs, seg)
 		i += 2 + cnt
+	}
+	if i+2 < len(f) && f[i+1] == "nh" {
+		rt.nh = ip(n(i + 2))
 	}
 	return rt
 }
